@@ -5,6 +5,7 @@ import (
 	"fmt"
 	"math/big"
 	"strings"
+	"unicode/utf8"
 
 	"github.com/fxamacker/cbor/v2"
 )
@@ -727,8 +728,8 @@ func canInt(v any) bool {
 
 // canTstr reports whether v can be used as a CBOR tstr type.
 func canTstr(v any) bool {
-	_, ok := v.(string)
-	return ok
+	s, ok := v.(string)
+	return ok && utf8.ValidString(s) // anything else is refused by the decoder
 }
 
 // canBstr reports whether v can be used as a CBOR bstr type.
